@@ -21,7 +21,7 @@ class C15(Prop):
     assumptions = []
 
     def n(self, tier):
-        return 1000 if tier == 'quick' else 12000
+        return 1000 if tier == 'quick' else 40000
 
     def cases(self, tier, rng):
         g = Gen(rng)
